@@ -6,6 +6,7 @@ import (
 	"go/token"
 	"go/types"
 	"math/big"
+	"sort"
 	"strings"
 
 	"golang.org/x/tools/go/ssa"
@@ -290,6 +291,16 @@ func (fx *FuncExec) load(st *State, reach *Term, a Value, t types.Type) Value {
 	case VPtr:
 		return fx.loadField(st, reach, ad.key, ad.ref, t)
 	case VElem:
+		if ad.tbl != "" {
+			// constant package-level table: its contents come from the source text (function tbl.<name>)
+			if fx.tables == nil {
+				fx.tables = map[string]bool{}
+			}
+			fx.tables[ad.tbl] = true
+			fx.usesSpec = true
+			v := ts.App("tbl."+sanitize(ad.tbl), SInt, ad.idx)
+			return fx.typedScalar(st, reach, v, t)
+		}
 		if ad.heap == "elem:*sync.Pool" {
 			// framePools[k]: the pool is identified by its index
 			return VPtr{"pool:frame", ad.idx, t.Underlying().(*types.Pointer).Elem()}
@@ -313,7 +324,7 @@ func (fx *FuncExec) typedScalar(st *State, reach *Term, v *Term, t types.Type) V
 	switch u := t.Underlying().(type) {
 	case *types.Basic:
 		if it, ok := intTyOf(u); ok {
-			if !v.isConst() && (v.op == "select" || v.op == "ite" || v.op == "var") {
+			if !v.isConst() && (v.op == "select" || v.op == "ite" || v.op == "var" || v.op == "app") {
 				if v.lo == nil || v.hi == nil {
 					ts.SetRange(v, it.min(), it.max())
 					fx.addFact(ts.True(), ts.mk("and", SBool, ts.mk("<=", SBool, ts.BigInt(it.min()), v), ts.mk("<=", SBool, v, ts.BigInt(it.max()))))
@@ -331,7 +342,21 @@ func (fx *FuncExec) typedScalar(st *State, reach *Term, v *Term, t types.Type) V
 			ts.SetRange(v, bigZero, big2p40)
 			fx.addFact(reach, ts.mk("<", SBool, v, fx.heapGet(st, allocKey, SInt)))
 		}
-		return VPtr{ptrKey(u.Elem()), v, u.Elem()}
+		p := VPtr{ptrKey(u.Elem()), v, u.Elem()}
+		// types with a declared `heapinvariant` keep it for every object in the heap (it is established where such
+		// objects are built, and nothing else writes them)
+		if invs := fx.eng.cs.HeapInvs[typeKey(u.Elem())]; len(invs) > 0 && fx.invDepth == 0 && !v.bound && !fx.invSeen[v.id] {
+			fx.invSeen[v.id] = true
+			fx.invDepth++
+			for _, c := range invs {
+				env := &cenv{fx: fx, st: st, old: st, binds: map[string]Value{"self": p}, reach: reach, params: map[string]Value{}}
+				if t, err := fx.evalClause(c, env); err == nil {
+					fx.addFact(reach, ts.Implies(ts.Ne(v, ts.Int(0)), t))
+				}
+			}
+			fx.invDepth--
+		}
+		return p
 	}
 	return VOpaque{v, t}
 }
@@ -340,6 +365,21 @@ func (fx *FuncExec) loadField(st *State, reach *Term, key string, ref *Term, t t
 	ts := fx.ts
 	if strings.HasPrefix(key, "global:") {
 		if v := fx.globalValue(st, strings.TrimPrefix(key, "global:"), t); v != nil {
+			return v
+		}
+		gname := strings.TrimPrefix(key, "global:")
+		if invs := fx.eng.cs.GlobalInvs[gname]; len(invs) > 0 && !fx.eng.mutableGlobals[gname] && !fx.inGlobalInv {
+			fx.inGlobalInv = true
+			v := fx.loadField(st, reach, key, ref, t)
+			for _, c := range invs {
+				env := &cenv{fx: fx, st: st, old: st, binds: map[string]Value{"self": v}, reach: reach, params: map[string]Value{}}
+				if tm, err := fx.evalClause(c, env); err == nil {
+					fx.addFact(reach, tm)
+				} else {
+					fx.note("globalinvariant " + gname + " not evaluated: " + err.Error())
+				}
+			}
+			fx.inGlobalInv = false
 			return v
 		}
 	}
@@ -379,7 +419,16 @@ func (fx *FuncExec) loadField(st *State, reach *Term, key string, ref *Term, t t
 		return fx.freshValueR("arr", t, st, reach)
 	}
 	// maps, chans, funcs: opaque ids
-	return VOpaque{ts.Select(fx.heapGet(st, key, SArr), ref), t}
+	ov := VOpaque{ts.Select(fx.heapGet(st, key, SArr), ref), t}
+	if _, isFn := t.Underlying().(*types.Signature); isFn && ov.t.isInt() {
+		if f, ok := fx.closures[ov.t.ival.Int64()]; ok {
+			return f
+		}
+	}
+	if _, isChan := t.Underlying().(*types.Chan); isChan {
+		fx.chanKey[ov.t.id] = key
+	}
+	return ov
 }
 
 func (fx *FuncExec) store(st *State, reach *Term, a Value, v Value, t types.Type) {
@@ -491,7 +540,14 @@ func (fx *FuncExec) storeField(st *State, key string, ref *Term, v Value, t type
 		case VOpaque:
 			set(key, SArr, x.t)
 		case VFunc:
-			set(key, SArr, ts.Int(int64(fx.eng.funcID(x.fn))))
+			// closures keep their bindings: register this closure value under a fresh id
+			fx.closureSeq++
+			id := int64(1000000 + fx.closureSeq)
+			if fx.closures == nil {
+				fx.closures = map[int64]VFunc{}
+			}
+			fx.closures[id] = x
+			set(key, SArr, ts.Int(id))
 		default:
 			fx.note(fmt.Sprintf("store of %T at field %s dropped", v, key))
 			set(key, SArr, ts.Fresh("st", SInt))
@@ -546,6 +602,13 @@ func (fx *FuncExec) execInstr(fn *ssa.Function, st *State, reach *Term, in ssa.I
 		case token.ARROW:
 			fx.note("channel receive yields an arbitrary value")
 			st.vals[ins] = fx.freshValueR("recv", ins.Type(), st, reach)
+			if cv, ok := x.(VOpaque); ok {
+				rv := st.vals[ins]
+				if tv, ok := rv.(VTuple); ok && len(tv.vals) > 0 {
+					rv = tv.vals[0]
+				}
+				fx.assumeChanInv(fn, st, reach, fx.chanKey[cv.t.id], rv)
+			}
 		default:
 			fx.unsupported("unary " + ins.Op.String())
 			st.vals[ins] = fx.freshValueR("un", ins.Type(), st, reach)
@@ -666,10 +729,16 @@ func (fx *FuncExec) execInstr(fn *ssa.Function, st *State, reach *Term, in ssa.I
 			rec.fn = fx.valueOf(st, ins.Call.Value)
 		}
 		rec.reach = reach
-		fx.deferred[fn] = append(fx.deferred[fn], rec)
+		if st.defers == nil {
+			st.defers = map[*ssa.Function][]deferRec{}
+		}
+		st.defers[fn] = append(st.defers[fn], rec)
 		return reach
 	case *ssa.RunDefers:
-		ds := fx.deferred[fn]
+		ds := st.defers[fn]
+		if st.defers != nil {
+			delete(st.defers, fn)
+		}
 		for i := len(ds) - 1; i >= 0; i-- {
 			d := ds[i]
 			if d.ins.Call.IsInvoke() {
@@ -686,10 +755,54 @@ func (fx *FuncExec) execInstr(fn *ssa.Function, st *State, reach *Term, in ssa.I
 		return reach
 	case *ssa.Send:
 		fx.note("channel send is a no-op")
+		if len(fx.stack) == 1 && fx.con != nil && len(fx.con.Anchors) > 0 {
+			// anchors send#k: k-th channel send of the function in source order; arg0 is the value sent
+			var sends []*ssa.Send
+			for _, b := range fn.Blocks {
+				for _, in2 := range b.Instrs {
+					if s2, ok := in2.(*ssa.Send); ok {
+						sends = append(sends, s2)
+					}
+				}
+			}
+			sort.Slice(sends, func(i, j int) bool { return sends[i].Pos() < sends[j].Pos() })
+			for i, s2 := range sends {
+				if s2 == ins {
+					reach = fx.runAnchors(fn, st, reach, fmt.Sprintf("send#%d", i+1), []Value{fx.valueOf(st, ins.X)}, src)
+				}
+			}
+		}
 		return reach
 	case *ssa.Select:
 		fx.note("select yields an arbitrary ready case and arbitrary received values")
 		st.vals[ins] = fx.freshValueR("select", ins.Type(), st, reach)
+		// declared channel invariants hold for what is received
+		if tv, ok := st.vals[ins].(VTuple); ok {
+			ri := 2
+			for _, sst := range ins.States {
+				if sst.Dir != types.RecvOnly {
+					continue
+				}
+				if ri < len(tv.vals) {
+					if cv, ok := fx.valueOf(st, sst.Chan).(VOpaque); ok {
+						fx.assumeChanInv(fn, st, reach, fx.chanKey[cv.t.id], tv.vals[ri])
+					}
+					// nobody sends nil on the package's channels: a successful receive of a pointer is non-nil (trusted)
+					if p, ok := tv.vals[ri].(VPtr); ok && len(tv.vals) > 1 {
+						if okv, ok := tv.vals[1].(VBool); ok {
+							fx.addFact(reach, ts.Implies(okv.t, ts.Ne(p.ref, ts.Int(0))))
+						}
+					}
+					// (values of channels that are never closed, listed with `chan`, are non-nil as well)
+					if p, ok := tv.vals[ri].(VPtr); ok {
+						if cv, ok := fx.valueOf(st, sst.Chan).(VOpaque); ok && fx.eng.cs.NeverClosed[fx.chanKey[cv.t.id]] {
+							fx.addFact(reach, ts.Ne(p.ref, ts.Int(0)))
+						}
+					}
+				}
+				ri++
+			}
+		}
 		if tv, ok := st.vals[ins].(VTuple); ok && len(tv.vals) > 0 {
 			if iv, ok := tv.vals[0].(VInt); ok {
 				lo := int64(0)
@@ -715,8 +828,33 @@ func (fx *FuncExec) execInstr(fn *ssa.Function, st *State, reach *Term, in ssa.I
 			st.vals[ins] = fx.freshValueR("strbyte", ins.Type(), st, reach)
 			return reach
 		}
-		fx.note("map lookup yields an arbitrary value")
-		st.vals[ins] = fx.freshValueR("lookup", ins.Type(), st, reach)
+		fx.note("map lookup yields an arbitrary value (pointer values: non-nil exactly when the key is present)")
+		v := fx.freshValueR("lookup", ins.Type(), st, reach)
+		if tv, ok := v.(VTuple); ok && ins.CommaOk && len(tv.vals) == 2 {
+			// maps of pointers in this package never store nil (trusted map invariant, see DESIGN)
+			if p, ok := tv.vals[0].(VPtr); ok {
+				if okv, ok := tv.vals[1].(VBool); ok {
+					fx.addFact(reach, ts.Eq(okv.t, ts.Ne(p.ref, ts.Int(0))))
+					// declared type invariants hold for objects kept in the package's maps (trusted)
+					for _, c := range fx.eng.cs.Types[typeKey(p.typ)] {
+						env := &cenv{fx: fx, fn: fn, st: st, old: st, binds: map[string]Value{"self": p}, reach: reach, params: map[string]Value{}}
+						if t, err := fx.evalClause(c, env); err == nil {
+							fx.addFact(reach, ts.Implies(okv.t, t))
+							fx.note("type invariant of " + typeKey(p.typ) + " assumed for values found in a map")
+						}
+					}
+				}
+			}
+		}
+		if p, ok := v.(VPtr); ok && !ins.CommaOk {
+			for _, c := range fx.eng.cs.Types[typeKey(p.typ)] {
+				env := &cenv{fx: fx, fn: fn, st: st, old: st, binds: map[string]Value{"self": p}, reach: reach, params: map[string]Value{}}
+				if t, err := fx.evalClause(c, env); err == nil {
+					fx.addFact(reach, ts.Implies(ts.Ne(p.ref, ts.Int(0)), t))
+				}
+			}
+		}
+		st.vals[ins] = v
 		return reach
 	case *ssa.Range:
 		st.vals[ins] = VOpaque{ts.Fresh("range", SInt), ins.Type()}
@@ -980,7 +1118,8 @@ func (fx *FuncExec) ifaceEq(st *State, reach *Term, x, y VIface) *Term {
 	base := ts.And(ts.Eq(x.tag, y.tag), ts.Eq(x.val, y.val))
 	// boxed struct types: equal tag and fieldwise equal payloads also count
 	var alts []*Term
-	for id, t := range fx.eng.typeByID {
+	for _, id := range fx.eng.sortedTypeIDs() {
+		t := fx.eng.typeByID[id]
 		if _, ok := t.Underlying().(*types.Struct); !ok {
 			continue
 		}
@@ -1066,7 +1205,8 @@ func (fx *FuncExec) execTypeAssert(st *State, reach *Term, ins *ssa.TypeAssert, 
 		// interface-to-interface: succeeds iff the dynamic type implements it
 		var alts []*Term
 		ai := ins.AssertedType.Underlying().(*types.Interface)
-		for id, t := range fx.eng.typeByID {
+		for _, id := range fx.eng.sortedTypeIDs() {
+			t := fx.eng.typeByID[id]
 			if types.Implements(t, ai) {
 				alts = append(alts, ts.Eq(iv.tag, ts.Int(int64(id))))
 			}
@@ -1138,6 +1278,10 @@ func (fx *FuncExec) convert(st *State, reach *Term, v Value, from, to types.Type
 			return mkSlice(id, ts.Int(0), n, n, tu.Elem())
 		}
 	case *types.Pointer:
+		if p, ok := v.(VPtr); ok {
+			// pointer conversion between types with the same underlying type, e.g. (*int32)(&sc.state)
+			return VPtr{p.key, p.ref, tu.Elem()}
+		}
 		if _, ok := v.(VOpaque); ok {
 			fx.unsupported("conversion to pointer from unsafe.Pointer")
 			return fx.freshValueR("conv", to, st, reach)
@@ -1154,7 +1298,7 @@ func (fx *FuncExec) execIndexAddr(st *State, reach *Term, ins *ssa.IndexAddr, sr
 	switch xv := x.(type) {
 	case VSlice:
 		reach = fx.safe(reach, "index", src, ts.And(ts.Le(ts.Int(0), i), ts.Lt(i, xv.len)))
-		st.vals[ins] = VElem{elemHeapKey(xv.elem), xv.arr, ts.Add(xv.off, i), xv.elem}
+		st.vals[ins] = VElem{heap: elemHeapKey(xv.elem), arr: xv.arr, idx: ts.Add(xv.off, i), typ: xv.elem}
 	case VPtr:
 		reach = fx.nilCheck(reach, x, src)
 		at, ok := xv.typ.Underlying().(*types.Array)
@@ -1164,7 +1308,14 @@ func (fx *FuncExec) execIndexAddr(st *State, reach *Term, ins *ssa.IndexAddr, sr
 			return reach
 		}
 		reach = fx.safe(reach, "index", src, ts.And(ts.Le(ts.Int(0), i), ts.Lt(i, ts.Int(at.Len()))))
-		st.vals[ins] = VElem{elemHeapKey(at.Elem()), fx.embID(xv.ref, xv.key), i, at.Elem()}
+		el := VElem{heap: elemHeapKey(at.Elem()), arr: fx.embID(xv.ref, xv.key), idx: i, typ: at.Elem()}
+		if strings.HasPrefix(xv.key, "global:") {
+			name := strings.TrimPrefix(xv.key, "global:")
+			if gi := fx.eng.globals[name]; gi != nil && gi.kind == "intarray" && !fx.eng.mutableGlobals[name] {
+				el.tbl = name
+			}
+		}
+		st.vals[ins] = el
 	default:
 		fx.unsupported(fmt.Sprintf("IndexAddr on %T", x))
 		st.vals[ins] = fx.freshValueR("ia", ins.Type(), st, reach)
@@ -1325,4 +1476,25 @@ func allBasicFields(t types.Type) bool {
 		}
 	}
 	return true
+}
+
+// assumeChanInv assumes the declared invariant of a channel for a received value (non-nil values only).
+func (fx *FuncExec) assumeChanInv(fn *ssa.Function, st *State, reach *Term, key string, v Value) {
+	if key == "" {
+		return
+	}
+	// key is like "serverConn.reader"
+	for _, c := range fx.eng.cs.Chans[key] {
+		env := &cenv{fx: fx, fn: fn, st: st, old: st, binds: map[string]Value{"self": v}, reach: reach, params: map[string]Value{}}
+		if t, err := fx.evalClause(c, env); err == nil {
+			guard := fx.ts.True()
+			if p, ok := v.(VPtr); ok {
+				guard = fx.ts.Ne(p.ref, fx.ts.Int(0))
+			}
+			fx.addFact(reach, fx.ts.Implies(guard, t))
+			fx.note("channel invariant of " + key + " assumed for received values (proved where the channel is written, when that function is under contract)")
+		} else {
+			fx.unsupported("channel invariant of " + key + ": " + err.Error())
+		}
+	}
 }
